@@ -80,7 +80,7 @@ UnitInit ==
             ue == <<-10, -20, -30, 10>>[uc]          \* the cfg file cannot hold negative numbers
             an == <<0, 1, 10>>[ai + 1]
             k == (ue * (2 * pw.d - pw.n)) \div pw.d
-            h == 31 * Hash(xs, ys) + 17 * ((pi - 2) + 4 * (li \div 4) + 8 * ai + 24 * form) + 7 * uc
+            h == 31 * Hash(xs, ys) + 17 * ((pi - 2) + 4 * (li \div 4) + 8 * ai + 24 * form + 48 * (uc - 1))
         IN /\ h % ThinU = 0
            /\ k <= 5          \* larger k (Poisson targets x 2^10, power 3 in tiny units): the fit does not return, see report
            /\ case = [kind |-> "glm",
